@@ -45,6 +45,9 @@ type Cfg struct {
 	// of the harness contains a panic the way a goroutine boundary with a recover would; the other
 	// notifications must still arrive, each once.
 	HandlerPanicEvery int `json:"handler_panic_every,omitempty"`
+	// a slow OnAtomicDeletion handler: this many scheduling points inside it (it runs under the
+	// key's bucket lock, after the old node was retired and before the table slot changes)
+	AtomicHandlerPoints int `json:"atomic_handler_points,omitempty"`
 }
 
 func (c *Cfg) W() int {
@@ -453,6 +456,12 @@ func NewRunner(w *simrt.World, cfg *Cfg) *Runner {
 		simrt.OnNextUnlock(func() { r.Events[idx].End = r.W.Tick() })
 		if r.OnAtomic != nil {
 			r.OnAtomic(ev)
+		}
+		if cfg.AtomicHandlerPoints > 0 {
+			r.fault("slow-atomic-handler")
+			for i := 0; i < cfg.AtomicHandlerPoints; i++ {
+				simrt.Point(simrt.KCallback)
+			}
 		}
 	}
 	asyncSeen := 0
